@@ -314,17 +314,28 @@ example : ¬ InRange 3 (step 3 ⟨[[false, true, true], [true, false, true], [tr
 example : InRange 3 ⟨[[false, true, true], [true, false, true], [true, true, false]], [0, 1, -1], 2,
     [false, false, true]⟩ := by decide
 
+/-! NOTE on what the membership theorems of this section do and do not cover (audits r4 #6, r5 #6, r6 #8): the dtype tag of every leaf
+is written by `toNValue` (by construction) — a wrong dtype in the real code cannot falsify `….valid (toNValue …) = true`; dtypes and
+field order of the real observations are compared by the `graph_coloring.spec` / `graph_coloring.state` ops (`nvalue`: field order, shape, dtype, data) and
+`jax.eval_shape` in the sweeps.  Shapes are READ OFF the value by `toNValue` (widths off the first row): see `…_obs_valid_only`. -/
+
 /-! #### (wave 3) membership in the DECLARED specs: structure, shapes, dtypes and bounds -/
 open Sp PzS PzS3
 
 /-- the model's `obsSpec` / `actionSpec` / reward and discount specs ARE the specs generated from the real spec objects
-(Gen/Specs.lean) for the catalogue configuration of GraphColoring (8 nodes) -/
+(Gen/Specs.lean) for the catalogue configuration of GraphColoring (8 nodes) and the spec-only configuration with 5 nodes (two
+sizes: a spec that ignores `n`, or has `n + c` for `2 * n`, fails one of them) -/
 theorem graph_coloring_obsSpec_generated :
     prefixed "observation_spec." (obsSpec 8) = declared "graphcoloring-8" "observation_spec." ∧
     [("action_spec", actionSpec 8)] = declared "graphcoloring-8" "action_spec" ∧
     [("reward_spec", rewardSpec)] = declared "graphcoloring-8" "reward_spec" ∧
-    [("discount_spec", discountSpec)] = declared "graphcoloring-8" "discount_spec" := by
-  refine ⟨by decide, by decide, by decide, by decide⟩
+    [("discount_spec", discountSpec)] = declared "graphcoloring-8" "discount_spec" ∧
+    prefixed "observation_spec." (obsSpec 5) = declared "spec-only-graphcoloring-5" "observation_spec." ∧
+    [("action_spec", actionSpec 5)] = declared "spec-only-graphcoloring-5" "action_spec" ∧
+    [("reward_spec", rewardSpec)] = declared "spec-only-graphcoloring-5" "reward_spec" ∧
+    [("discount_spec", discountSpec)] = declared "spec-only-graphcoloring-5" "discount_spec" := by
+  refine ⟨by decide +kernel, by decide +kernel, by decide +kernel, by decide +kernel,
+    by decide +kernel, by decide +kernel, by decide +kernel, by decide +kernel⟩
 
 /-- the `reset` observation — every `n ≥ 1`, EVERY thresholded draw `B` of the generator — is accepted by
 `observation_spec.validate`: fields `adj_matrix`, `action_mask`, `colors`, `current_node_index`; shapes `(n, n)`, `(n,)`,
@@ -356,7 +367,10 @@ theorem graph_coloring_episode_obs_valid (n : Nat) (hn : 0 < n) (B : List (List 
   GraphColoring.step_obs_valid n _ _ ((graph_coloring_specInv_invariant n hn B).2.2 as has) ⟨by omega, by omega⟩
 
 /-- what membership means: `validate` accepts ONLY observations with an `(n, n)` matrix, `n` mask entries, `n` colours in
-[−1, n−1] and a current node in [0, n−1] -/
+[−1, n−1] and a current node in [0, n−1]  CAVEAT (audits r4 #7, r5 #5, r6 #5): for every field that is a nested list, `toNValue` reads the widths off the FIRST row of the
+nested list, so the shape conjuncts here mean "row count, length of the first row, total number of cells" — a ragged value with the right total can be a
+member, and nothing is concluded about the later rows.  Rectangularity is part of the invariant (`SpecInv` / `Shaped` / `Rect…`) under which the
+forward theorems (`…_reset_obs_valid`, `…_step_obs_valid`, `…_along`) are proved, i.e. it holds of every EMITTED observation. -/
 theorem graph_coloring_obs_valid_only (n : Nat) (o : Obs) (h : (obsSpec n).valid (toNValue o) = true) :
     gridShape o.adj = [n, n] ∧ o.mask.length = n ∧ o.colors.length = n ∧
     (∀ c ∈ o.colors, -1 ≤ c ∧ c ≤ ((n : Nat) : Int) - 1) ∧ 0 ≤ o.cur ∧ o.cur ≤ ((n : Nat) : Int) - 1 :=
